@@ -270,15 +270,34 @@ func (g *G) listStage(recv *Expr, d int) *Expr {
 		g.use("goto")
 		return MCall(m("fsm", g.mb(lam("a,b", If(Bin(">", b, Int(2)), SCall("goto", Bin("+", Member(a, "state"), Int(1))), a)))), "map", lam("e", Member(e, "state")))
 	case 26:
-		return MCall(m("movingWindowRemove", g.mb(lam("l", Bin(">", MCall(l, "size"), Int(2))))), "map", lam("l", MCall(l, "sum")))
+		return MCall(m("movingWindowRemove", g.mb(lam("l", Bin(">", MCall(l, "size"), Int(2))))), "map", g.windowUse())
 	case 27:
 		// movingWindow: keys with a spacing of 0.75 (never exactly 1 apart)
-		return MCall(m("movingWindow", g.mb(lam("e", Bin("*", e, Float(0.75))))), "map", lam("l", MCall(l, "size")))
+		return MCall(m("movingWindow", g.mb(lam("e", Bin("*", e, Float(0.75))))), "map", g.windowUse())
 	case 28:
 		return MCall(m("groupByInt", g.mb(lam("e", Bin("%", e, Int(3))))), "map", lam("e", Bin("+", Bin("*", Member(e, "key"), Int(1000)), MCall(Member(e, "values"), "size"))))
 	default:
 		return m("replaceList", g.mb(lam("l", MCall(MCall(l, "reverse"), "top", Int(3)))))
 	}
+}
+
+// windowUse: what is done with each window (a sub-list the built-in hands out): it is
+// a list of its own, appending to it or changing it concerns no other window.
+func (g *G) windowUse() *Expr {
+	switch g.n(5, "windowUse") {
+	case 0:
+		return lam("l", MCall(l, "size"))
+	case 1:
+		return lam("l", MCall(l, "sum"))
+	case 2:
+		g.use("append")
+		return lam("l", MCall(MCall(l, "append", Int(1000)), "sum"))
+	case 3:
+		g.use("append")
+		return lam("l", MCall(MCall(MCall(l, "append", Int(100)), "append", Int(200)), "reduce", lam("a,b", Bin("+", Bin("*", a, Int(3)), b))))
+	}
+	g.use("set")
+	return lam("l", MCall(MCall(l, "set", Int(0), Int(-7)), "sum"))
 }
 
 // listTerminal applies a consuming method to an int list.
